@@ -59,6 +59,11 @@ def run_worker(ob, scratch):
                "paths": 0, "queries": 0, "solver_s": 0.0, "cex": []}
     res.setdefault("wall_s", time.time() - t)
     shutil.rmtree(wdir, ignore_errors=True)
+    if os.environ.get("VERIF_PROGRESS", "1") != "0":
+        sys.stderr.write("[%s] %-44s %-12s paths=%-6s cex=%d %.0fs %s\n" % (
+            time.strftime("%H:%M:%S"), ob["name"], res.get("status"), res.get("paths"), len(res.get("cex", [])),
+            res["wall_s"], res.get("reason", "")[:80]))
+        sys.stderr.flush()
     return res
 
 
